@@ -66,6 +66,14 @@ def short_strings(chk):
             yield u''.join(tup)
     for s in (u']]>', u']]]>', u']]>]]>', u']>]]>', u'\r]]>', u']]\r>', u']\r]>', u'a]]>b\r\nc', u'"\'"', u"'\"'", u'&#13;', u'&amp;'):
         yield s
+    # strings built from the very tokens the encoders emit (an encoder that post-processes its own output is fooled by these)
+    for k in (1, 2, 3) if chk.tier != 'quick' else (1, 2):
+        for tup in itertools.product(TOKENS, repeat=k):
+            yield u''.join(tup)
+
+
+TOKENS = [u'<![CDATA[', u']]>', u'&#13;', u'&#10;', u'&#9;', u'&amp;', u'&lt;', u'&gt;', u'&quot;', u'&apos;', u'<!--', u'-->', u'<?', u'?>',
+          u'\r', u'\n', u'\t', u'"', u"'", u'x', u']', u'&', u'<', u'>', u'\x0c', u' xmlns:a="b"', u'/>', u'</a>']
 
 
 def wrap_text(fs, s):
@@ -261,35 +269,61 @@ sys.path.insert(0, %(harness)r)
 import xmlcorr as X
 from odf.element import Element
 spec = json.loads(sys.stdin.read())
+_real_stdout = sys.stdout; sys.stdout = sys.stderr     # the library prints diagnostics; keep them out of the answer
 out = {}
 prefixes = []
 for ns in spec.get('history', []):
     prefixes.append(Element.get_nsprefix(Element.__new__(Element), ns))
 out['prefixes'] = prefixes
 out['table'] = [[k, v] for k, v in Element.namespaces.items()]
+def tup(x):
+    return tuple(tup(i) for i in x) if isinstance(x, list) else x
+def fix(n):
+    if n[0] in 'TC': return (n[0], n[1])
+    return ('E', n[1], n[2], [tuple(a) for a in n[3]], [fix(k) for k in n[4]])
+early = [X.build(fix(t)) for t in spec.get('trees_before', [])]     # documents already in memory when the history happens
 for pre in spec.get('preload', []):
     from odf.opendocument import load
     try:
         load(pre)
     except Exception as ex:
         out.setdefault('preload_errors', []).append(repr(ex))
+for item in spec.get('synthetic', []):
+    # a package whose content.xml binds a prefix odfpy reserves for another namespace to a foreign namespace
+    import io, zipfile
+    from odf.opendocument import OpenDocumentText, load
+    from odf.text import P
+    d = OpenDocumentText(); d.text.addElement(P(text=u'x'))
+    b = io.BytesIO(); d.save(b)
+    zin = zipfile.ZipFile(io.BytesIO(b.getvalue())); ob = io.BytesIO(); zout = zipfile.ZipFile(ob, 'w')
+    for info in zin.infolist():
+        data = zin.read(info.filename)
+        if info.filename == 'content.xml':
+            x = data.decode('utf-8')
+            x = x.replace(u'<text:p>x</text:p>', u'<text:p>x<%s:thing xmlns:%s="%s" %s:a="1"/></text:p>' % (item[0], item[0], item[1], item[0]), 1)
+            data = x.encode('utf-8')
+        zout.writestr(info, data)
+    zout.close()
+    try:
+        load(io.BytesIO(ob.getvalue()))
+    except Exception as ex:
+        out.setdefault('preload_errors', []).append(repr(ex))
+for ns in spec.get('touch', []):
+    Element(qname=(ns, u'probe'), check_grammar=False)
 docs = []
+for e in early:
+    docs.append(X.to_xml(e))
 for t in spec.get('trees', []):
-    def tup(x):
-        return tuple(tup(i) for i in x) if isinstance(x, list) else x
-    def fix(n):
-        if n[0] in 'TC': return (n[0], n[1])
-        return ('E', n[1], n[2], [tuple(a) for a in n[3]], [fix(k) for k in n[4]])
     e = X.build(fix(t))
     docs.append(X.to_xml(e))
 out['docs'] = docs
 out['table_after'] = [[k, v] for k, v in Element.namespaces.items()]
-sys.stdout.write(json.dumps(out))
+_real_stdout.write(json.dumps(out))
 '''
 
 
 def run_child(spec):
-    code = _CHILD % {'repo': common.REPO, 'harness': os.path.join(common.VERIF, 'harness')}
+    code = _CHILD.replace('%(repo)r', repr(common.REPO)).replace('%(harness)r', repr(os.path.join(common.VERIF, 'harness')))
     r = subprocess.run([sys.executable, '-c', code], input=json.dumps(spec), stdout=subprocess.PIPE, stderr=subprocess.PIPE,
                        universal_newlines=True)
     if r.returncode != 0:
